@@ -599,6 +599,9 @@ func runJob(d jobDesc) (jo jobOut) {
 			prev = e.V
 		}
 	}
+	if prev == nil {
+		jo.stats["rebuild-on-a-store-without-any-value"]++
+	}
 	if hetA {
 		jo.stats["rebuild-scans-document-without-A-after-one-with-A"]++
 	}
@@ -730,6 +733,15 @@ func genWorkload(r *Rng, w int, thorough bool) workload {
 	if w < 2 {
 		ns = 3
 	}
+	// every value is deleted by the end of the first lifetime (also single-value stores)
+	delAll := (!thorough && w == 4) || (thorough && w%5 == 2)
+	if delAll {
+		if !thorough {
+			wl.prefix, ns = "pfx", 2
+		} else {
+			ns = 1 + r.Intn(3)
+		}
+	}
 	var seeds []seed
 	live := map[string]val{}
 	for i := 1; i <= ns; i++ {
@@ -754,7 +766,30 @@ func genWorkload(r *Rng, w int, thorough bool) workload {
 	} else if (!thorough && w == 3) || (thorough && w%5 == 4) {
 		variant = 2 // the first Init has an EMPTY seed set, later Inits a non-empty one
 	}
+	if delAll {
+		variant = 3
+	}
 	switch variant {
+	case 3:
+		wl.kind = "everything-deleted-at-the-end"
+		k := 3
+		if thorough {
+			k = r.Intn(6)
+		}
+		wl.ops1 = append([]op{initOp}, genOps(r, live, seeds, k, false)...)
+		ids := make([]string, 0, len(live))
+		for id := range live {
+			ids = append(ids, id)
+		}
+		sort.Strings(ids)
+		for len(ids) > 0 {
+			i := r.Intn(len(ids))
+			wl.ops1 = append(wl.ops1, op{K: "delete", ID: ids[i]})
+			ids = append(ids[:i], ids[i+1:]...)
+		}
+		// the next lifetime leaves the store empty: Init is a no-op (marker), the other calls fail
+		wl.ops2 = []op{initOp, {K: "delete", ID: "zz"}, {K: "update", ID: "zz", A: "x"}}
+		return wl
 	case 0:
 		wl.ops1 = append([]op{initOp}, genOps(r, live, seeds, n, true)...)
 	case 1:
@@ -838,7 +873,7 @@ func main() {
 		}
 		descs = append(descs, d)
 	} else {
-		nw := 4
+		nw := 5
 		if thorough {
 			nw = 40
 		}
